@@ -79,9 +79,10 @@ func judgeC16B(c *vlib.Ctx, cs *Case, evs []Rec) (vs []verdict, ended bool, inco
 	if fin.Msg == "not-quiescent" {
 		return vs, ended, "device did not become quiescent within the bound"
 	}
-	if !strings.Contains(fin.Trace, cs.Child.SlowOn+"->") {
-		return vs, ended, "the slow step was never performed: " + fin.Trace
-	}
+	// the scenario was not driven as planned when the slow step never happened; answers given with the
+	// device at rest are judged all the same (R1 and R3 do not depend on the plan), and only if those
+	// hold is the case inconclusive
+	slowDone := strings.Contains(fin.Trace, cs.Child.SlowOn+"->")
 	c.Count("device_steps_observed", int64(fin.Steps))
 	wantFinal := imageOf(cs.Kind, fin.Device)
 	firstEvt := cs.Steps[firstIdx].Evt
@@ -94,6 +95,9 @@ func judgeC16B(c *vlib.Ctx, cs *Case, evs []Rec) (vs []verdict, ended bool, inco
 			c.Count("answers_to_overlapping_requests", 1)
 		}
 		moving := ans.InFlight > 0 || fin.Steps > ans.Steps
+		if !slowDone && moving {
+			continue
+		}
 		c.Count("answers_compared", 1)
 		if st.CmdTimeoutMs > 0 {
 			c.Count("answers_to_requests_with_a_timeout_shorter_than_the_slow_step", 1)
@@ -125,6 +129,9 @@ func judgeC16B(c *vlib.Ctx, cs *Case, evs []Rec) (vs []verdict, ended bool, inco
 			vs = append(vs, verdict{"REPORT", pre + "success-reported-device-" + clsTok(fin.Device),
 				detail("success reported although the device did not reach the destination")})
 		}
+	}
+	if !slowDone && len(vs) == 0 {
+		return vs, ended, "the slow step was never performed: " + fin.Trace
 	}
 	return vs, ended, ""
 }
